@@ -57,9 +57,10 @@ type Program struct {
 	CG       *callgraph.Graph
 	CHA      *callgraph.Graph
 
-	ZapFuncs   []*ssa.Function // all functions (incl. anonymous) of package zap, sorted by name
-	owners     []ownerInfo     // file-owner types (owners.go), while a rule that needs them runs
-	discGuards *[]guardSpec    // guarded fields discovered from writes under the struct's own mutex (rules_lock.go)
+	ZapFuncs   []*ssa.Function          // all functions (incl. anonymous) of package zap, sorted by name
+	owners     []ownerInfo              // file-owner types (owners.go), while a rule that needs them runs
+	discGuards *[]guardSpec             // guarded fields discovered from writes under the struct's own mutex (rules_lock.go)
+	hdrMemo    map[hdrMemoKey][]hdrItem // R27 section-header: what a function writes through the counting writer
 	NumFiles   int
 	NumPkgs    int
 	NumAllFns  int
